@@ -13,6 +13,7 @@ from .runner import hyp_run
 
 PROP = "C02"
 LEVEL = "exploration"
+EVALUATION_COUNTER = "applications"
 RULE = (
     "equations from four families - planted-solution equations (literal k = L(a*) - R0(a*) added to one side, so "
     "a* is a true solution by construction), balanced-move templates with the moved addend/coefficient inside "
